@@ -7,21 +7,36 @@ a child below min_points, a cluster below min_points is never split, predict in 
 
   * TLC explores HGMSplit exhaustively over all oracles (BIC-improvement rank vs threshold, child
     partition) within small bounds and checks the invariants; seeded wrong variants of the spec
-    (Mut_...) must each be refuted (non-vacuity of the invariants).
-  * Binding B: every terminal behaviour enumerated by TLC (its oracle log is part of the state) is
-    replayed into the real HierarchicalGaussianMixture.fit/predict/predict_proba with the name
-    `GaussianMixture` of the tempest.cluster namespace pointed at a scripted fake; evaluation order,
-    which candidates are asked for a partition, accepted splits (verbose output), labels_, n_clusters_
-    and predictions are compared with the spec's behaviour.
+    (Mut_...) must each be refuted (non-vacuity of the invariants).  The oracle is a FUNCTION OF THE
+    CLUSTER by construction (state variable `oracle`, extended on first consultation, reused
+    afterwards; invariant OracleIsFunction): the mixture fits are seeded identically, so an
+    implementation may evaluate a cluster once and remember the answer or re-evaluate it in every pass.
+  * Binding B: every terminal behaviour enumerated by TLC is replayed into the real
+    HierarchicalGaussianMixture.fit/predict/predict_proba with the name `GaussianMixture` of the
+    tempest.cluster namespace pointed at a scripted fake that is CONTENT-ADDRESSED and order-free: it
+    answers bic() of the 1-component model of a cluster and predict() of its 2-component model from the
+    behaviour's oracle, for any call, in any order, any number of times (a cluster the specification
+    never consulted gets an adversarial default).  Nothing is asserted about the PROTOCOL (call order,
+    call counts, which instances are asked, final per-cluster fits, message wording); what the property
+    states is compared: n_clusters_ = K <= cap, labels_ = the specification's labelling, the accepted
+    splits if the verbose output can be parsed, predict / predict_proba ranges and centre queries
+    (never an exact tie: scripted centres are >= 12.5 sigma apart), also on refits of one object.
+    Children >= min_points and "small clusters are never split" follow from the equality with the
+    specification's labelling, whose invariants TLC checks.
   * Binding A: real fits on seeded generated data with a logging subclass of GaussianMixture installed
-    the same way; the recorded oracle answers (order ranks of improvement / threshold, child labels),
-    the final labelling and the predicted labels form a trace that TLC validates against HGMTrace.tla
-    (which conjoins the original HGMSplit actions), batched per JVM.
+    the same way.  From everything it saw (keyed by the CONTENT of the data set a model was fitted on)
+    the observed oracle is built as a function of the cluster (order ranks of improvement / threshold,
+    child labels where a partition was produced) and handed to TLC as data; HGMTrace.tla (which
+    conjoins the original HGMSplit actions) runs the specification deterministically with it and
+    compares its K / labelling / accepted splits / prediction range with the outcome of the fit
+    (total verdicts with the failing clause named).  A specification run that needs an oracle value
+    the code never computed is INCONCLUSIVE (counted); observed answers that differ for the same data
+    set are reported as information.
 
 Decided relationally (specs/GMMPair.tla, replication_part): "integer sample weights are equivalent to
 replicating points" for GaussianMixture - fit(X, k) and fit(repeat(X, k)) run in lock-step at the grain of one
 EM iteration (same k-means++ picks, equal parameters / lower bound up to 1e-9 after every iteration, same
-convergence decisions, same fitted model, predictions and BIC).  The hierarchical model is not coupled
+convergence decisions, same fitted model, predictions - away from exact / rounding-level posterior ties - and BIC).  The hierarchical model is not coupled
 (bic() ignores sample weights by construction, so replication legitimately changes the split decisions).
 
 Only MONITORED (not decided by the model, labelled `monitor:` in the evidence): the other EM mixture
@@ -74,7 +89,7 @@ def spec_jobs(tier):
     """(name, constants) of the exhaustive generator runs."""
     jobs = [
         ("small-family", dict(ns="{1, 2, 3, 4}", mp="{1, 2, 3}", mi="{0, 1, 2}", R=2, low=ALL_LOW)),
-        ("n5", dict(ns="{5}", mp="{2}", mi="{2}", R=2, low=ALL_LOW)),
+        ("n5", dict(ns="{5}", mp="{2}", mi="{2}", R=1 if tier == "quick" else 2, low=ALL_LOW)),
         # four passes over four points: clusters are consulted again in later passes (a remembering implementation answers from
         # memory, a re-evaluating one asks again), two clusters qualify in one pass and the lower-positioned one wins
         ("n4-deep", dict(ns="{4}", mp="{1}", mi="{4}", R=1, low='{"thr"}')),
@@ -82,7 +97,7 @@ def spec_jobs(tier):
     if tier == "thorough":
         jobs += [
             ("n3-deep", dict(ns="{3}", mp="{1}", mi="{3}", R=1, low=ALL_LOW)),
-            ("n4-deep-all", dict(ns="{4}", mp="{1}", mi="{3, 4}", R=1, low=ALL_LOW)),
+            ("n4-deep-all", dict(ns="{4}", mp="{1}", mi="{3}", R=1, low=ALL_LOW)),
             ("n6-deep", dict(ns="{6}", mp="{2}", mi="{3}", R=1, low='{"thr"}')),
             ("n5-r3", dict(ns="{5}", mp="{2}", mi="{1, 2}", R=3, low=ALL_LOW)),
             ("n6", dict(ns="{6}", mp="{2, 3}", mi="{1, 2}", R=2, low=ALL_LOW)),
@@ -266,7 +281,7 @@ _SPLIT_RE = re.compile(r"^Iteration (\d+): Split cluster (\d+) into (\d+) and (\
 _STOP_RE = re.compile(r"^No further splits accepted after (\d+) iterations")
 
 
-def replay_state(ck, np, cluster, st, variant, predicted_tbl, stats, history=None, forced_reuse=None):
+def replay_state(ck, np, cluster, st, variant, predicted_tbl, stats, history=None, forced_reuse=None, predict=True):
     """Replay one terminal spec state (pc = done) into the real HierarchicalGaussianMixture.  With `history`, every other
     behaviour is replayed into the object a PREVIOUS behaviour of the same configuration was fitted and queried on
     (action Refit of HGMSplit: fit -> predict -> fit on other data -> predict on one object)."""
@@ -325,11 +340,11 @@ def replay_state(ck, np, cluster, st, variant, predicted_tbl, stats, history=Non
                 stats["refits_K_decreased"] = stats.get("refits_K_decreased", 0) + 1
     sc.hgm = hgm
     keep = ("n", "minPts", "maxIter", "clusters", "labels", "K", "log", "splits", "oracle")
-    rep = {"state": {k: _js_state(st.get(k)) for k in keep},
+    rep = {"state": {k: (_js_state(st.get(k)) if k == "oracle" else st.get(k)) for k in keep},
            "variant": variant, "config": dict(d=d, normalize=normalize, covariance_type=ctype, threshold_modifier=modifier,
                                              min_points=None if use_none else mp, max_iterations=mi, spacing=spacing),
            "refit_of_object_previously_fitted_with_K": prev["K"] if reused else None,
-           "previous_behaviour_on_the_same_object": ({k: _js_state(prev.get(k)) for k in keep} if reused else None)}
+           "previous_behaviour_on_the_same_object": ({k: (_js_state(prev.get(k)) if k == "oracle" else prev.get(k)) for k in keep} if reused else None)}
     real = cluster.GaussianMixture
     out = io.StringIO()
     cluster.GaussianMixture = Fake
@@ -384,6 +399,8 @@ def replay_state(ck, np, cluster, st, variant, predicted_tbl, stats, history=Non
         anyq = np.vstack([X, X[:1], X[:1], corners, unit_corners, np.full((1, d), 1e6), np.full((1, d), -1e6),
                           np.full((1, d), 1e300), np.zeros((1, d)), 0.5 * (lo + hi)[None, :]])
         covs = ["good"] + ([["nan", "negdef", "zero"][(variant // 3) % 3]] if variant % 3 == 0 else [])
+        if not predict:     # light replay (quick tier, deep job): the decisions of fit() only
+            covs = []
         for cv in covs:
             if cv != "good":
                 # refit with degenerate component covariances: only the range of predictions is compared
@@ -467,7 +484,7 @@ class Collector:
 
 
 def _replay_chunk(args):
-    blocks, start, nvariants, predicted, seed, tier = args
+    blocks, start, nvariants, predicted, seed, tier, light = args
     np, cluster = _G["np"], _G["cluster"]
     col = Collector(seed, tier)
     stats = {"replayed": 0, "with_split": 0, "predictions": 0, "centre_exact": 0, "refits": 0, "refits_K_decreased": 0,
@@ -478,7 +495,7 @@ def _replay_chunk(args):
         st = tla.parse_state_block(blk)
         for v in range(nvariants):
             variant = ((start + j) * 7 + v * 13 + seed) % 840
-            replay_state(col, np, cluster, st, variant, predicted, stats, history)
+            replay_state(col, np, cluster, st, variant, predicted, stats, history, predict=(not light or (start + j) % 4 == 0))
         if st["splits"]:
             nontrivial.add(hash((st["n"], st["minPts"], st["maxIter"], _freeze_log(st["log"]))))
         # antecedents that distinguish a remembering implementation from a re-evaluating one
@@ -530,7 +547,7 @@ def _freeze_log(log):
     return tuple((e["it"], e["pos"], e["imp"], e["asked"], tuple(sorted(e["c1"]))) for e in log)
 
 
-def run_generator(name, consts, seed, tier, mp_pool, nvariants):
+def run_generator(name, consts, seed, tier, mp_pool, nvariants, light=False):
     """TLC exhaustive run + dispatch of every terminal state to the replay workers."""
     res = tlc.run_tlc("HGMSplit", CFG.format(variant="intended", **consts), dump=True, coverage=True, workers=4, timeout=1500)
     info = {"name": name, "constants": consts, "states": res.distinct, "transitions": res.generated, "depth": res.depth,
@@ -552,6 +569,8 @@ def run_generator(name, consts, seed, tier, mp_pool, nvariants):
             done_blocks.append(blk)
     res.cleanup()
     info["terminal_states"] = len(done_blocks)
+    info["replay"] = ("every terminal behaviour: fit() decisions; predict / predict_proba queries on every 4th (quick tier, deep job)" if light
+                      else "every terminal behaviour: fit() decisions and predict / predict_proba queries")
     chunk = 250
 
     def block_K(blk):
@@ -563,7 +582,7 @@ def run_generator(name, consts, seed, tier, mp_pool, nvariants):
     # come first, so that the later ones are refits of an object that had MORE clusters before (HGMSplit!Refit)
     done_blocks.sort(key=lambda b: "\n".join(b))
     done_blocks = [b for a in range(0, len(done_blocks), chunk) for b in sorted(done_blocks[a:a + chunk], key=lambda x: -block_K(x))]
-    asyncs = [mp_pool.apply_async(_replay_chunk, ((done_blocks[a:a + chunk], a, nvariants, predicted, seed, tier),))
+    asyncs = [mp_pool.apply_async(_replay_chunk, ((done_blocks[a:a + chunk], a, nvariants, predicted, seed, tier, light),))
               for a in range(0, len(done_blocks), chunk)]
     return info, asyncs
 
@@ -573,8 +592,8 @@ def run_spec_mutant(variant):
 
 
 # --------------------------------------------------------------------------- binding A: real fits
-KINDS = ["separated", "overlapping", "duplicated", "collinear", "identical", "zerovar", "single", "lattice", "boundary", "separated_wide",
-         "two_level"]
+KINDS = ["separated", "overlapping", "duplicated", "collinear", "identical", "zerovar", "single", "lattice", "boundary", "separated_wide"]
+EXTRA0 = 100000      # indices >= EXTRA0: the extra family "two_level" (two groups far apart, each of two or three blobs)
 WKINDS = ["unit", "uniform", "exponential", "lognormal6", "nearzero", "exactzero", "integer", "dominant", "zeroblob"]
 
 
@@ -582,7 +601,7 @@ def gen_case(np, seed, i, tier):
     """Seeded data set + weights + clusterer configuration (see DESIGN.md C15, binding A)."""
     rng = np.random.RandomState((seed * 1000003 + i * 7919 + 15) % (2 ** 32))
     d = 1 + i % 6
-    kind = KINDS[(i // 6) % len(KINDS)]
+    kind = KINDS[(i // 6) % len(KINDS)] if i < EXTRA0 else "two_level"
     wkind = WKINDS[(i // 2 + i // 60) % len(WKINDS)]
     if rng.rand() < 0.25:
         sizes = [2 * d, 2 * d + 1, 4 * d, 8 * d + 1]
@@ -1298,13 +1317,38 @@ def run_pair(c):
             finally:
                 np.seterr(**old)
         picks = [int(owner[p]) for p in rec["picks"]] if which == "B" else list(rec["picks"])
+        margin = posterior_margin(np, g, X)
         out["runs"].append({"picks": picks, "r": rec["r"], "init": rec["init"], "init_sw": rec["init_sw"], "iters": rec["iters"],
                             "fitted": (np.array(g.weights_, dtype=float), np.array(g.means_, dtype=float), np.array(g.covariances_, dtype=float)),
-                            "n_iter": int(g.n_iter_), "pred": pred, "bic": bic, "tol": float(g.tol), "max_iter": int(g.max_iter)})
+                            "n_iter": int(g.n_iter_), "pred": pred, "margin": margin, "bic": bic, "tol": float(g.tol), "max_iter": int(g.max_iter)})
     return out
 
 
 RTOL = 1e-9
+TIE = 1e-6     # log-posterior margin below which a predicted label is a (near-)tie between two components: not compared
+
+
+def posterior_margin(np, g, X):
+    """Per query point: difference between the two largest component log-posteriors of a fitted mixture (inf for a
+    single component).  Points whose margin is <= TIE are exact or rounding-level ties - which component wins there is not
+    determined by the fitted model up to 1e-9 - and are left out of the prediction comparison (counted)."""
+    from scipy.stats import multivariate_normal
+    k = int(g.n_components)
+    if k < 2:
+        return np.full(len(X), np.inf)
+    lp = np.full((len(X), k), -np.inf)
+    cov = np.asarray(g.covariances_, dtype=float)
+    for j in range(k):
+        C = cov[j] if g.covariance_type == "full" else np.diag(cov[j])
+        try:
+            lp[:, j] = np.log(float(g.weights_[j]) + 1e-10) + multivariate_normal.logpdf(
+                X, mean=np.asarray(g.means_[j], dtype=float), cov=C + np.eye(C.shape[0]) * float(g.reg_covar), allow_singular=True)
+        except Exception:
+            pass
+    srt = np.sort(lp, axis=1)
+    with np.errstate(invalid="ignore"):
+        m = srt[:, -1] - srt[:, -2]
+    return np.where(np.isnan(m), 0.0, m)
 
 
 def _close(np, x, y, floor=0.0):
@@ -1380,10 +1424,11 @@ def project_gmm_pair(np, o):
         return all(np.array_equal(x, y, equal_nan=True) for x, y in zip(run["iters"][-1][:3], run["fitted"]))
 
     fa, fb = A["fitted"], B["fitted"]
+    clear = (A["margin"] > TIE) & (B["margin"] > TIE)      # predictions at exact / rounding-level ties are not compared
     fin = {"nIterA": A["n_iter"], "nIterB": B["n_iter"], "lastA": last_is_fitted(A), "lastB": last_is_fitted(B),
            "wa": 0, "wb": 0 if _close(np, fa[0], fb[0]) else 1, "ma": 0, "mb": 0 if _close(np, fa[1], fb[1]) else 1,
            "ca": 0, "cb": 0 if _close(np, fa[2], fb[2]) else 1,
-           "pa": 0, "pb": 0 if np.array_equal(A["pred"], B["pred"]) else 1,
+           "pa": 0, "pb": 0 if np.array_equal(A["pred"][clear], B["pred"][clear]) else 1,
            "ba": 0, "bb": 0 if _close(np, A["bic"], B["bic"], floor=1.0) else 1}
     tie = pick_tie(np, o["X"], A["init_sw"], A["picks"], A["r"])
     pair = {"picksA": A["picks"], "picksB": B["picks"], "pickTie": bool(tie), "sameUniforms": A["r"] == B["r"],
@@ -1396,7 +1441,8 @@ def project_gmm_pair(np, o):
             m = max(abs(ga[t] - tol), abs(gb[t] - tol))
             near_tie = m <= 1e-9 * max(1.0, abs(A["iters"][t][3]))
             break
-    diag = {"max_rel_param_diff_over_iterations": worst, "iters": (len(ga), len(gb)), "near_tie_at_first_decision_difference": bool(near_tie),
+    diag = {"prediction_points_compared": int(clear.sum()), "prediction_points_skipped_as_ties": int((~clear).sum()),
+            "max_rel_param_diff_over_iterations": worst, "iters": (len(ga), len(gb)), "near_tie_at_first_decision_difference": bool(near_tie),
             "uniforms": A["r"], "gapsA": ga[-3:], "gapsB": gb[-3:], "tol": tol}
     return pair, diag
 
@@ -1442,7 +1488,7 @@ def replication_part(ck, mp_pool=None):
     ncases = 36 if ck.tier == "quick" else 360
     pending = [(j, 0) for j in range(ncases)]
     ev = {"pairs_validated": 0, "pairs_coupled": 0, "excluded_pick_tie": 0, "inconclusive_near_ties": 0, "states": 0, "transitions": 0,
-          "tlc_runs": 0, "iterations_compared": 0, "multi_iteration_pairs": 0, "max_rel_param_diff": 0.0, "by_components": {}, "by_type": {}}
+          "tlc_runs": 0, "iterations_compared": 0, "multi_iteration_pairs": 0, "prediction_points_compared": 0, "prediction_points_skipped_as_ties": 0, "max_rel_param_diff": 0.0, "by_components": {}, "by_type": {}}
     rounds = 0
     while pending and rounds < 3:
         rounds += 1
@@ -1481,6 +1527,8 @@ def replication_part(ck, mp_pool=None):
                 if len(p["a"]) >= 3:
                     ev["multi_iteration_pairs"] += 1
                 ev["max_rel_param_diff"] = max(ev["max_rel_param_diff"], dg["max_rel_param_diff_over_iterations"])
+                ev["prediction_points_compared"] += dg["prediction_points_compared"]
+                ev["prediction_points_skipped_as_ties"] += dg["prediction_points_skipped_as_ties"]
                 c = o["case"]
                 ev["by_components"][str(c["K"])] = ev["by_components"].get(str(c["K"]), 0) + 1
                 ev["by_type"][c["ctype"] + "/" + c["layout"]] = ev["by_type"].get(c["ctype"] + "/" + c["layout"], 0) + 1
@@ -1507,7 +1555,8 @@ def replication_part(ck, mp_pool=None):
                                 "the pinned code: n_clusters_ differed in 29 of 60 three-blob data sets with weights 1..5)")
     ev["rule"] = ("one pair = GaussianMixture(K, type, random_state=s).fit(X, k) vs .fit(repeat(X, k)) on seeded data (d 1-3, 1-3 components, "
                   "overlapping / separated blobs, integer weights 1..5 uniform / skewed / geometric / one large, 20-120 points); tags = equality "
-                  "up to 1e-9 relative; convergence test decided on exact order ranks; pairs whose k-means++ uniforms fall within rounding of a "
+                  "up to 1e-9 relative; predicted labels are compared on the points whose two largest component log-posteriors differ by more "
+                  "than 1e-6 in both runs (exact and rounding-level ties are not determined by the fitted model: skipped, counted); convergence test decided on exact order ranks; pairs whose k-means++ uniforms fall within rounding of a "
                   "cumulative-weight boundary are outside the antecedent (excluded, re-drawn); a divergence explained by a rounding-level tie of "
                   "`new - old < tol` is inconclusive (re-drawn); the hierarchical level is NOT coupled: bic() ignores sample weights and the "
                   "threshold uses the effective sample size, so K legitimately differs between weighted and replicated data")
@@ -1640,13 +1689,16 @@ def main():
     quick = ck.tier == "quick"
     nreal = 108 if quick else 1512
     mp_pool = mp.get_context("fork").Pool(12)     # forked before any thread exists
-    real_async = mp_pool.map_async(_real_case, [(ck.seed, i, ck.tier) for i in range(-N_FIXED, nreal)], chunksize=1)
+    nextra = 6 if quick else 72
+    real_async = mp_pool.map_async(_real_case, [(ck.seed, i, ck.tier) for i in list(range(-N_FIXED, nreal)) + list(range(EXTRA0, EXTRA0 + nextra))],
+                                   chunksize=1)
 
     # ---- spec: exhaustive generator runs (+ replay workers) and seeded wrong variants, concurrently
     tpool = ThreadPoolExecutor(max_workers=8)
     mut_futs = [tpool.submit(run_spec_mutant, v) for v in SPEC_MUTANTS]
     nvariants = 1 if quick else 2
-    gen_futs = [tpool.submit(run_generator, name, consts, ck.seed, ck.tier, mp_pool, nvariants) for name, consts in spec_jobs(ck.tier)]
+    gen_futs = [tpool.submit(run_generator, name, consts, ck.seed, ck.tier, mp_pool, nvariants, quick and name == "n4-deep")
+                for name, consts in spec_jobs(ck.tier)]
 
     # ---- replication clause: relational (two-run) trace validation, GMMPair.tla
     rep_ev = replication_part(ck, mp_pool)
@@ -1681,6 +1733,7 @@ def main():
             od, ot = cov_total.get(k, (0, 0))
             cov_total[k] = (od + dd, ot + tt)
 
+    phase = {"replication_part": rep_ev["wall_s"], "generator_runs_and_replays_done_at": round(time.time() - ck.t0, 1)}
     refuted = {}
     for f in mut_futs:
         v, r = f.result()
@@ -1701,6 +1754,7 @@ def main():
     real = real_async.get()
     mp_pool.close()
     mp_pool.join()
+    phase["real_fits_done_at"] = round(time.time() - ck.t0, 1)
     traces, owners = [], []
     mon = {"fits_monitored": 0, "fits_with_failure": 0}
     mon_keys = {}
@@ -1816,6 +1870,7 @@ def main():
                              f"predicted labels {sorted(t['preds'])[:8]}; cap={t['maxIter'] + 1} minPts={t['minPts']}; {len(t['orc'])} clusters in the observed "
                              f"oracle) ({o['cfg']})",
                              dict(o["rep"], trace=_js_state(t), clause=v[1]))
+    phase["real_fits_validated_at"] = round(time.time() - ck.t0, 1)
     # ---- binding self-test: corrupted copies of accepted traces must get the expected verdict from TLC
     donors = [traces[i] for i in accepted_idx if owners[i]["summary"]["K"] > 1][:3] + [traces[i] for i in accepted_idx[:1]]
     corrupted = [(what, t, want) for d_ in donors for what, t, want in corrupt_traces(d_)]
@@ -1902,7 +1957,10 @@ def main():
                         "their coordinates spreading >= 1e-3, singular-value ratio of the centred points >= 1e-3 i.e. not collinear / "
                         "degenerate) and it reproduces on two fresh fits of the pristine class",
         "monitor:fits": mon,
+        "phase_wall_s": phase,
     }
+    if os.environ.get("C15_TIMING"):
+        print("phases:", phase, {g["name"]: (g["tlc_wall_s"], g.get("terminal_states")) for g in gen_info}, flush=True)
     for k, v in sorted(mon_keys.items()):
         cov[k] = v
     ck.finish(cov)
